@@ -16,6 +16,8 @@ const (
 	Microsecond = rt.Microsecond
 	Millisecond = rt.Millisecond
 	Second      = rt.Second
+	Minute      = rt.Minute
+	Hour        = rt.Hour
 )
 
 type Timer struct {
@@ -27,6 +29,9 @@ type Timer struct {
 var Armed []*Timer
 
 func Reset() { Armed = nil }
+
+// OnPanic receives a panic of the timer's callback (the driver turns it into a monitor hit).
+var OnPanic func(name string, e any)
 
 func AfterFunc(d Duration, f func()) *Timer {
 	t := &Timer{}
@@ -41,6 +46,11 @@ func AfterFunc(d Duration, f func()) *Timer {
 			return "EvFire"
 		})
 		if run {
+			defer func() {
+				if e := recover(); e != nil && OnPanic != nil {
+					OnPanic("timer", e)
+				}
+			}()
 			f()
 		}
 	})
